@@ -449,8 +449,10 @@ func ruleIncrementBase(c *core.Ctx) {
 		pkg := c.Prog.Pkg(cmapPkg)
 		n := 0
 		for _, fn := range c.Prog.Funcs(pkg) {
-			if fn.Obj.Name() == "NewToUnicodeFile" || fn.Obj.Name() == "nextString" {
-				continue // the builder compares adjacent texts: a different use
+			if allowedOrOnlyCalledBy(c, fn, func(k string) bool {
+				return strings.HasSuffix(k, ".NewToUnicodeFile") || strings.HasSuffix(k, ".nextString")
+			}, 0) {
+				continue // the builder (and helpers only it calls) compares adjacent texts: a different use
 			}
 			info := fn.Info()
 			for _, call := range core.CallsTo(info, fn.Decl.Body, true, cmapPkg+".nextString") {
